@@ -281,7 +281,11 @@ def rebase_note_lines_beyond_file(trace, viol):
     if viol.get("class") != "line_beyond_file":
         return False
     av = _step_argv(trace, viol)
-    if not (av[:1] in (["rebase"], ["cherry-pick"]) and "--abort" not in av):
+    st = viol.get("step")
+    ops = _ops(trace)
+    ci_rebase = isinstance(st, int) and st < len(ops) and ops[st].get("op") == "ci_run" and \
+        _index_of(trace, lambda o: o.get("op") == "server_merge" and o.get("how") == "rebase") is not None
+    if not ci_rebase and not (av[:1] in (["rebase"], ["cherry-pick"], ["pull"]) and "--abort" not in av):
         return False
     # the listed class: the commit did not itself change the file (it carries the file's state
     # from the original head), or a conflicted region was resolved away
@@ -457,3 +461,19 @@ def hooks_pull_autostash_abort(trace, viol):
     ab = _index_of(trace, lambda o: _is_git(o, "rebase", "--abort"), pl)
     st = viol.get("step")
     return ab is not None and isinstance(st, int) and st > ab
+
+
+@predicate("ci_squash_taken_for_rebase")
+def ci_squash_taken_for_rebase(trace, viol):
+    """git-ai ci: a squash merge of a pull request with N >= 2 commits is classified as a rebase merge
+    whenever the base branch has N linear commits below the merge commit (it counts commits instead of
+    comparing them), so the N-1 base-branch commits below the squash commit receive notes derived from
+    the pull request's commits"""
+    ops = _ops(trace)
+    sm = _index_of(trace, lambda o: o.get("op") == "server_merge" and o.get("how") == "squash")
+    st = viol.get("step")
+    if sm is None or not isinstance(st, int) or st >= len(ops) or ops[st].get("op") != "ci_run":
+        return False
+    co = _index_of(trace, lambda o: _is_git(o, "checkout", "-b", "feat"))
+    n_commits = sum(1 for o in ops[co or 0:sm] if _is_git(o, "commit"))
+    return n_commits >= 2
